@@ -73,7 +73,16 @@ DeclListB == {Block(<<Let("s", IntL(100)), Block(<<Let("s", N), LetJ("t", Bin("+
               Block(<<Const("c2", N), ConstJ("d2", Bin("-", Lv("c2"), M)), SExpr(Lv("d2"))>>),
               Block(<<Let("s", M), If(C, Block(<<Let("s", N), LetJ("t", Bin("*", Lv("s"), IntL(3))), Ret(Lv("t"))>>), NoneS(0)), SExpr(Lv("s"))>>),
               Block(<<Let("jval", IntL(7)), LetJ("k", Lv("jval")), LetJ("jv2", Bin("+", Lv("k"), Lv("jval"))), SExpr(Lv("jv2"))>>)}
-StmtProgs == {[prop |-> "ival", body |-> b] : b \in StmtBodies \cup SwScope \cup TypedInt \cup DeclListB} \cup TypedOther
+\* a shift has the type of its LEFT operand, whatever the type of the count: signed results used where the sign matters
+ShiftU == {[prop |-> "flag", body |-> SExpr(Bin("<", Bin("-", Bin(">>", IntL(8), U), IntL(10)), IntL(0)))],
+           [prop |-> "ival", body |-> SExpr(Bin("/", Bin("-", Bin(">>", N, U), IntL(10)), IntL(2)))],
+           [prop |-> "flag", body |-> SExpr(Bin("<", Bin("-", Bin("<<", IntL(1), U), IntL(4)), IntL(0)))],
+           [prop |-> "dval", body |-> SExpr(Cast(Bin("-", Bin("<<", IntL(1), U), IntL(4)), "double"))],
+           [prop |-> "ival", body |-> Block(<<Let("x", Bin(">>", N, U)), Ret(Bin("-", Lv("x"), IntL(10)))>>)],
+           [prop |-> "flag", body |-> Block(<<Let("x", Bin(">>", M, U)), If(Bin("<", Bin("-", Lv("x"), IntL(1)), IntL(0)), Ret(Bool(TRUE)), NoneS(0)), Ret(Bool(FALSE))>>)],
+           [prop |-> "uval", body |-> SExpr(Bin("+", Bin(">>", U, N), Bin("<<", U, IntL(1))))],
+           [prop |-> "ival", body |-> SExpr(Bin("%", Bin("-", Bin(">>", IntL(100), U), IntL(200)), IntL(7)))]}
+StmtProgs == {[prop |-> "ival", body |-> b] : b \in StmtBodies \cup SwScope \cup TypedInt \cup DeclListB} \cup TypedOther \cup ShiftU
 
 
 VARIABLE prog
